@@ -31,7 +31,8 @@ LEVEL_TEXT = ('RDKit is a black box, so "the round trip through RDKit preserves 
               'neighbour order is read back as the same configuration from ANY other neighbour order provided RDKit '
               're-expresses tags by permutation parity (the documented convention), the dative direction rule, coordinates. '
               'What is validated on every run: the Lean model equals the real code field by field at the two RDKit '
-              'boundaries (before SanitizeMol, before fix_structure), and the real round trips A/B/X hold on corpus and '
+              'boundaries (before SanitizeMol, before fix_structure) and at both return values (to-final, from-final with fix_stereo '
+              'over the real chiral_* sets as oracle), conformers included, and the real round trips A/B/X hold on corpus and '
               'generator molecules with RDKit in the loop. That is the right level: the decisive step is run-time comparison '
               'of real outputs, backed by theorems about the modelled part.')
 LEVEL_NOTE = ('Lean kernel; gen_c20 translator; hand-written model Model/C20Bridge.lean tied by correspondence; the C12 sign '
@@ -42,13 +43,16 @@ TECHNIQUE = 'Lean 4 theorems over regenerated tables + C12 parity algebra; model
 HAS_DRIVER = True
 FINDINGS_MODULE = 'ChythonModel.Findings.C20'
 RULE = ('corpus sample + handmade + stereo templates (all label combinations for <= 3 stereo elements, explicit/implicit H, '
+        'incl. the ring-axis family: stereo elements chython accepts and RDKit\'s perception does not; '
         'Kekule and aromatic form) x configuration-preserving renumbering (new numbers, new atom and bond insertion order) x '
         'keep_mapping on/off; RDKit side: RenumberAtoms and random-order SMILES re-reads; a case is non-trivial when the '
         'molecule carries a stereo label, charge, isotope, radical, aromatic or order-8 bond; distinct by request line')
 TRUSTED = ['gen_c20 translator (reads the live module constants and RDKit enum name tables)',
            'hand-written Lean model Model/C20Bridge.lean (validated by correspondence, not derived from the Python text)',
            'C12 model Model/Stereo.lean + Gen/StereoTables.lean (imported)',
+           'C12 model Model/StereoFix.lean of fix_stereo (imported by Model/C20FromFinal.lean); its chiral_* oracle is answered by the real code',
            'capture wrappers around chython.utils.rdkit.SanitizeMol and MoleculeContainer.fix_structure (observation only)',
+           'own RDKit-side configuration judge rd_configuration and the carried-label input builder rd_carried (RDKit functions only)',
            'own parity / configuration judge and configuration-preserving renumbering in harness/props/c20.py',
            'RDKit 2026.3 (black box on the path under test and as the judge of one side, as the property states)']
 ASSUMPTIONS = ['RDKit: a chiral tag is relative to the atom\'s neighbour (bond) order with an implicit hydrogen last; reordering '
@@ -1241,7 +1245,7 @@ def report(ctx, kind, tag, smi, bad, extra=None):
 def correspond(ctx):
     from rdkit import Chem, RDLogger
     RDLogger.DisableLog('rdApp.*')
-    ctx.cov['programs'] = 5   # to_rdkit_molecule, from_rdkit_molecule, stereogenic_tetrahedrons, _stereo_cis_trans_centers, stereogenic_cis_trans
+    ctx.cov['programs'] = 6   # to_rdkit_molecule, from_rdkit_molecule, stereogenic_tetrahedrons, _stereo_cis_trans_centers, stereogenic_cis_trans, fix_stereo (as called by from)
     s_env, s_from, s_rt, s_edge = (Stream(ctx, n) for n in ('env', 'from', 'model-round-trip', 'edge'))
     s_to = Stream(ctx, 'to', canon_rmol)
     s_ff = Stream(ctx, 'from-final', canon_final)    # the RETURNED molecule against the whole-function model (fix_stereo included)
